@@ -37,6 +37,9 @@ impl Regex {
         ensures match r { Ok(re) => regex_compile(p@) == Some(re), Err(_) => regex_compile(p@) is None },
     { unimplemented!() }
 }
+/// ASCII case-insensitive comparison: some relation on texts that is *not* equality of contents (uninterpreted)
+pub uninterp spec fn ascii_ci_eq(a: Seq<char>, b: Seq<char>) -> bool;
+pub assume_specification [str::eq_ignore_ascii_case](a: &str, b: &str) -> (r: bool) ensures r == ascii_ci_eq(a@, b@);
 /// `str::parse::<u32>()` as a partial function of the text (R36)
 pub uninterp spec fn parse_u32(s: Seq<char>) -> Option<u32>;
 pub struct ParseIntError {}
